@@ -34,6 +34,9 @@ func (r *lineLimitReader) Read(b []byte) (int, error) {
 	}
 
 	if r.LineLimit == 0 {
+		// What is read while the limit is switched off (a BDAT chunk) is
+		// not part of a line: start counting afresh once it is back on.
+		r.curLineLength = 0
 		return n, nil
 	}
 
